@@ -9,7 +9,7 @@ import sys
 ID = "C17"
 LEVEL = "exploration"
 BUDGET = {"quick": 50, "thorough": 600}
-FLOOR = {"quick": 2000, "thorough": 8000}
+FLOOR = {"quick": 2000, "thorough": 2000}  # conclusive cases below which a run is inconclusive (the thorough tier is time-budgeted: same floor)
 TIMEOUT = 180
 REQUIRED_OBS = ["statements_checked", "disallowed_rejected", "allowed_imported", "allow_all_statements", "exec_forms", "pyscript_module_imports", "stubs_imports", "builtins_checked", "option_flips"]
 RULE = (
